@@ -34,6 +34,12 @@ func c19Call(f func() (influxql.ExecutionPrivileges, error)) M {
 		return o
 	}
 	o["privs"] = c19Privs(ep)
+	// the list is the caller's: it may be extended (the package's own idiom for INTO) and overwritten; nothing of that
+	// may show in the answer to a later question
+	guard(func() {
+		ep = append(ep, influxql.ExecutionPrivilege{Name: "zz_appended", Privilege: influxql.AllPrivileges})
+		ep[0] = influxql.ExecutionPrivilege{Name: "zz_overwritten", Privilege: influxql.NoPrivileges}
+	})
 	if err != nil {
 		o["err"] = errStr(err)
 	}
